@@ -12,52 +12,55 @@ CHECKS = {
             'all chains of 2 binary operators over the 11 operators with sign/percent decorations and bracketings, chains of 3 '
             'and 4 operators, unary/percent stacks and every decimal literal spelling up to the digit bound are translated and '
             'evaluated by the real Parser/Executor under several operand vectors (numbers, text, blank, TRUE; as overrides, '
-            'workbook constants and literals); exhaustive within those bounds',
+            'workbook constants and literals); text literals (all ordered pairs over 36 texts incl. runs of blanks, tabs, line breaks, '
+            'look-alikes of tokens) with & = <>; operands in columns of 2-3 letters; blank operands that get their value from an override; '
+            'exhaustive within those bounds',
             'trusted: mc/ref/formula.py (reference grammar and IEEE arithmetic); small-scope hypothesis for longer chains',
             'DESIGN.md section 2 C01'),
     'C02': ('bounded-exhaustive enumeration of reference spellings x prefixes x title sets x areas x function positions on '
             'workbooks whose every cell holds a unique number',
             'every sub-rectangle of a 4x4 window at three offsets and whole-column areas, with all $-spellings, unquoted / '
-            'quoted prefixes over four title sets (sheet orders permuted), in 13 function positions, plus every column '
-            '1..16384 (thorough) and the row set, own-sheet semantics on every sheet and missing titles; values and order are '
+            'quoted prefixes over eight title sets (sheet orders permuted; digits, $, edge apostrophes, look-alikes), in 14 function positions, plus every column '
+            '1..16384 (thorough; quick: boundary set + the columns named like functions) prefixed and bare, the row set, own-sheet semantics on every sheet, missing titles (incl. digits), '
+            'sheets without cells and chart sheets at every position, overridden cells (falsy values) read through every spelling; values and order are '
             'compared with the planted numbers; exhaustive within those bounds',
             'trusted: planted-value oracle; Excel-legal reference spellings only (no reversed corners, no ! in titles)',
             'DESIGN.md section 2 C02'),
     'C03': ('bounded-exhaustive enumeration of dependency digraphs (programs), every node as entry point, against '
             'whole-workbook translation and a reference evaluation of the graph',
-            'all labelled digraphs on up to 3 cells (4 in thorough; 5 with out-degree <= 2 by stride) over two sheets, three '
-            'edge forms, entry cells addressed numerically, A1-style and through a Cell object already used by an Executor; '
-            'closure (every reachable cell defined), value agreement, and parser exception for every cyclic graph / entry',
+            'all labelled digraphs on up to 3 cells (4 in thorough; 5 with out-degree <= 2 by stride) over two sheets, six '
+            'edge forms (direct, SUM over a cell / a whole column, IF, column argument of INDEX, IFERROR), all 216 sequences of three shared area fragments, entry cells addressed numerically, A1-style and through a Cell object already used by an Executor; '
+            'closure (every reachable cell defined), value agreement, and parser exception for every cyclic graph / entry - on each of three requests of one Parser',
             'trusted: graph reference evaluator (weighted sums of distinct primes)', 'DESIGN.md section 2 C03'),
     'C04': ('explicit-state exploration: all histories of set_cells batches replayed on the real Executor, oracle = '
             're-translation of the edited workbook; repeated under a range of hash seeds in separate processes',
             'all sequences of d override batches (d=2 over all 34 batches, d=3 over the 20 core batches; thorough 3/4) with '
             'every cell queried after every step; batches cover the same cell written twice, formula / failing / blank / '
-            'out-of-range / second-sheet / two-letter-column targets, falsy and type-changing values, both addressings; '
+            'out-of-range / second-sheet / two-letter-column / pass-through-formula targets, areas reaching beyond the used range read by SUM, COUNT, MATCH, INDEX, VLOOKUP, falsy, type-changing and date-time values, both addressings; '
             'PYTHONHASHSEED 0..7 (0..63)',
             'trusted: differential oracle uses the same translator on the edited workbook; None and empty text are not override values',
             'DESIGN.md section 2 C04'),
     'C05': ('bounded-exhaustive enumeration of token sequences and single-token edits, judged by an independent reference grammar',
             'all sequences up to length 4 over 14 tokens (5 over 10 tokens; thorough 5/6), joined with and without blanks, through '
             'the real lexer/parser/translator; accepted texts are compiled and evaluated; every insertion/deletion/duplication '
-            'in a corpus with every supported function; every function x arity; whitespace at every boundary; every subset of '
-            'separators swapped',
+            '(incl. characters no token knows) in a corpus with every supported function; every function x arity; whitespace at every boundary; every subset of '
+            'separators swapped; 27 functions x 15 operator-expression arguments, plain vs bracketed',
             'trusted: mc/ref/formula.py grammar and the hand-written arity table', 'DESIGN.md section 2 C05'),
     'C07': ('bounded-exhaustive enumeration of strings x positions with an AST non-interference oracle, a canary and round-trip equality',
-            'all strings up to length 3 (4 thorough) over 14 special characters plus ~70 payloads, in constant cells, literals, '
-            'concatenations, criteria of four functions, SEARCH/IF operands and sheet titles, safety check on and off: generated '
+            'the empty text and all strings up to length 3 (4 thorough) over 14 special characters plus ~70 payloads, in constant cells, literals, '
+            'concatenations, criteria of four functions (alone, after and in front of &), SEARCH/IF operands and sheet titles, safety check on and off: generated '
             'methods must have the AST shape of a benign string of the same lexical class, no payload may run, texts round-trip',
             'trusted: lexical-class regexes of the harness; Python ast module', 'DESIGN.md section 2 C07'),
     'C08': ('explicit-state exploration: all histories of query / override operations replayed on the real Executor with state '
             'invariants after every transition',
-            'all sequences of 3 operations over 31 operations and of 4 over 16 core operations (thorough 4/5): get_cell in four '
-            'spellings, reused Cell objects, get_cells, get_sheet by index/title, four set_cells; values against a fresh executor '
+            'all sequences of 3 operations over 48 operations and of 4 over 24 core operations (thorough 4/5): get_cell in six '
+            'spellings (lower-case letters, title + numbers ...), a second Executor over the same class, reused Cell objects, get_cells, get_sheet by index/title, four set_cells; values against a fresh executor '
             'with the same overrides, override map and sheet sizes against the model, grid shape/coordinates/values',
             'trusted: the fresh-executor oracle (same generated class)', 'DESIGN.md section 2 C08'),
     'C09': ('explicit-state BFS over Parser facade calls with state de-duplication and replay validation; hash-seed and '
             'process-history enumeration in separate processes; 2-thread schedule enumeration',
-            'BFS to depth 5 (7 thorough) over 12 facade operations on colliding workbooks, every get/write compared with a fresh '
-            'Parser; every reached state re-derived by replaying its history; text hashes for 8 workbooks x 2 settings under '
+            'BFS to depth 5 (7 thorough) over 14 facade operations on colliding workbooks (one unsafe, one that fails after loading, one rewritten behind its path), every get/write compared with a fresh '
+            'Parser and with the hand-fixed kind of answer; every reached state re-derived by replaying its history; written file = returned text for 19 workbooks; text hashes for 19 workbooks x 2 settings under '
             'PYTHONHASHSEED 0..7 (0..31) and after every other workbook in a cold process',
             'trusted: Parser state = its instance fields + caller-owned Cell objects (validated by replay)', 'DESIGN.md section 2 C09'),
     'C18': ('bounded-exhaustive enumeration of sparse layouts x value types read through the real Parser/Executor',
